@@ -5,7 +5,7 @@ type modItem struct {
 	Item
 }
 
-var fingerprintDirs = []string{"net/packet", "net", "net/CFB8", "level", "save/region", "nbt", "nbt/dynbt", "offline", "net/queue", "chat", "bot", "server/auth", "server/command", "yggdrasil/user"}
+var fingerprintDirs = []string{"net/packet", "net", "net/CFB8", "level", "save/region", "nbt", "nbt/dynbt", "offline", "net/queue", "chat", "bot", "server/auth", "server/command", "yggdrasil/user", "server"}
 
 // The whitelist: every item is regenerated from /repo on every run.
 var items = []modItem{
@@ -57,4 +57,33 @@ var items = []modItem{
 	{"Packet", Item{Dir: "net/packet", Kind: "cond", Recv: "BitSet", Func: "ReadFrom", Err: "bit set length less than zero", Name: "BitSet_ReadFrom_negLen"}},
 	// ---- net/CFB8 (C10) ----
 	{"CFB8", Item{Dir: "net/CFB8", Kind: "expr", Recv: "CFB8", Func: "xorKeyStream", Local: "tempPos", Name: "CFB8_tempPos"}},
+	// ---- C19: packet ids used by the gate, table length of bot.Events, protocol number ----
+	{"Gate", Item{Dir: "data/packetid", Kind: "const", Func: "ClientboundLoginLoginDisconnect", Name: "ClientboundLoginLoginDisconnect"}},
+	{"Gate", Item{Dir: "data/packetid", Kind: "const", Func: "ClientboundLoginHello", Name: "ClientboundLoginHello"}},
+	{"Gate", Item{Dir: "data/packetid", Kind: "const", Func: "ClientboundLoginGameProfile", Name: "ClientboundLoginGameProfile"}},
+	{"Gate", Item{Dir: "data/packetid", Kind: "const", Func: "ClientboundLoginLoginCompression", Name: "ClientboundLoginLoginCompression"}},
+	{"Gate", Item{Dir: "data/packetid", Kind: "const", Func: "ClientboundLoginCustomQuery", Name: "ClientboundLoginCustomQuery"}},
+	{"Gate", Item{Dir: "data/packetid", Kind: "const", Func: "ClientboundLoginCookieRequest", Name: "ClientboundLoginCookieRequest"}},
+	{"Gate", Item{Dir: "data/packetid", Kind: "const", Func: "ServerboundLoginHello", Name: "ServerboundLoginHello"}},
+	{"Gate", Item{Dir: "data/packetid", Kind: "const", Func: "ServerboundLoginCustomQueryAnswer", Name: "ServerboundLoginCustomQueryAnswer"}},
+	{"Gate", Item{Dir: "data/packetid", Kind: "const", Func: "ServerboundLoginLoginAcknowledged", Name: "ServerboundLoginLoginAcknowledged"}},
+	{"Gate", Item{Dir: "data/packetid", Kind: "const", Func: "ServerboundLoginCookieResponse", Name: "ServerboundLoginCookieResponse"}},
+	{"Gate", Item{Dir: "data/packetid", Kind: "const", Func: "ClientboundStatusStatusResponse", Name: "ClientboundStatusStatusResponse"}},
+	{"Gate", Item{Dir: "data/packetid", Kind: "const", Func: "ClientboundStatusPongResponse", Name: "ClientboundStatusPongResponse"}},
+	{"Gate", Item{Dir: "data/packetid", Kind: "const", Func: "ServerboundStatusStatusRequest", Name: "ServerboundStatusStatusRequest"}},
+	{"Gate", Item{Dir: "data/packetid", Kind: "const", Func: "ServerboundStatusPingRequest", Name: "ServerboundStatusPingRequest"}},
+	{"Gate", Item{Dir: "data/packetid", Kind: "const", Func: "ClientboundConfigFinishConfiguration", Name: "ClientboundConfigFinishConfiguration"}},
+	{"Gate", Item{Dir: "data/packetid", Kind: "const", Func: "ServerboundConfigFinishConfiguration", Name: "ServerboundConfigFinishConfiguration"}},
+	{"Gate", Item{Dir: "data/packetid", Kind: "const", Func: "BundleDelimiter", Name: "BundleDelimiter"}},
+	{"Gate", Item{Dir: "data/packetid", Kind: "const", Func: "ClientboundPacketIDGuard", Name: "ClientboundPacketIDGuard"}},
+	{"Gate", Item{Dir: "bot", Kind: "const", Func: "ProtocolVersion", Name: "ProtocolVersion"}},
+	// ---- net/packet/packet.go: reject conditions of the frame unpackers (C07) ----
+	{"Packet", Item{Dir: "net/packet", Kind: "cond", Recv: "Packet", Func: "unpackWithoutCompression", Err: "uncompressed packet error", Name: "Unpack_plainLengthBad"}},
+	{"Packet", Item{Dir: "net/packet", Kind: "cond", Recv: "Packet", Func: "unpackWithCompression", Err: "is below threshold", Name: "Unpack_belowThreshold"}},
+	{"Packet", Item{Dir: "net/packet", Kind: "cond", Recv: "Packet", Func: "unpackWithCompression", Err: "is larger than protocol maximum", Name: "Unpack_aboveMaximum"}},
+	{"Packet", Item{Dir: "net/packet", Kind: "cond", Recv: "Packet", Func: "unpackWithCompression", Err: "is smaller than the packet id", Name: "Unpack_belowIdLen"}},
+	// ---- level (C11) ----
+	{"Level", Item{Dir: "level", Kind: "func", Func: "calcBitStorageSize", Name: "calcBitStorageSize"}},
+	{"Level", Item{Dir: "level", Kind: "func", Func: "calcBitsPerValue", Name: "calcBitsPerValue"}},
+	{"Level", Item{Dir: "level", Kind: "func", Recv: "BitStorage", Func: "calcIndex", Name: "BitStorage_calcIndex"}},
 }
